@@ -47,6 +47,10 @@ type zzExt struct {
 // nilFinish: fault kind 3 on a start hook = the hook returns a nil finish function
 func (e *zzExt) nilFinish(h int) bool { return h == e.faultHook && e.faultKind == 3 }
 
+type zzBadErr struct{}
+
+func (zzBadErr) Error() string { panic("Error method boom") }
+
 func (e *zzExt) maybeFault(h int) {
 	if h == e.faultHook && e.faultKind != 3 {
 		*e.faultsHit++
@@ -55,6 +59,11 @@ func (e *zzExt) maybeFault(h int) {
 			panic(errors.New("ext boom"))
 		case 1:
 			panic("ext boom")
+		case 4: // an error value whose Error method cannot be called: a nil pointer in an error interface
+			var ne *gqlerrors.Error
+			panic(error(ne))
+		case 5: // an error value whose Error method panics itself
+			panic(zzBadErr{})
 		default:
 			panic(42)
 		}
@@ -149,7 +158,7 @@ func ZZ_C17_hooks() {
 	fh := zzChoice("fhook", zzNumHooks+1) - 1 // -1 = no fault
 	fk := 0
 	if fh >= 0 {
-		fk = zzChoice("fkind", 4)
+		fk = zzChoice("fkind", 6)
 		if fk == 3 {
 			// a nil finish function only makes sense for the four start hooks
 			zzAssume(fh == zzHParseStart || fh == zzHValStart || fh == zzHExecStart || fh == zzHResolveStart)
